@@ -85,6 +85,10 @@ def configs(tier):
                         continue
                     out.append(dict(entry='Gillespie_complex_contagion', model=model, graph=g, ic=ic, full=full, max_expo=E, truncate=True,
                                     wstub='abstract', tags=[model, g, 'full' if full else 'plain']))
+                if g == 'P3' and ic == _ics(model, n, tier)[0]:
+                    # parameters=None (the user functions then receive an empty tuple)
+                    out.append(dict(entry='Gillespie_complex_contagion', model=model, graph=g, ic=ic, full=False, max_expo=E, truncate=True,
+                                    no_parameters=True, wstub='abstract', tags=[model, g, 'parameters=None']))
                 if g in ('P3', 'K3'):
                     # the influence set may be any iterable the user likes: a one-shot iterator (G.neighbors(node)), a set, a tuple
                     for infl in ('iterator', 'set', 'tuple'):
@@ -96,6 +100,14 @@ def configs(tier):
                     # finite symbolic horizon: nothing may be reported at or after tmax
                     out.append(dict(entry='Gillespie_complex_contagion', model=model, graph=g, ic=ic, full=(g == 'K2'), max_expo=E - 1, truncate=True,
                                     tmax='sym', wstub='abstract', tags=[model, g, 'tmax']))
+    # nothing can happen from the start (all rates zero): a single row at tmin
+    for model in MODELS:
+        inactive = MODELS[model]['statuses'][0] if model != 'threshold' else 'A'
+        for g in ('K2', 'P3'):
+            n = graphs.ALL[g][0]
+            for full in (False, True):
+                out.append(dict(entry='Gillespie_complex_contagion', model=model, graph=g, ic=[inactive] * n, full=full, max_expo=E, truncate=True,
+                                wstub='abstract', tags=[model, g, 'nothing-active']))
     return out
 
 
@@ -125,6 +137,9 @@ def run_path(h, cfg):
     nodes = list(G.nodes())
     m = MODELS[cfg['model']]
     params = {k: eng.real(k, lo=0, lo_strict=True) for k in m['params']}
+    user_params = params
+    if cfg.get('no_parameters'):
+        user_params = None
     stub = RandomStub(max_expo=cfg['max_expo'], truncate=True, max_draws=100)
     install_sim(stub, NPProxy())
     gillaw.uninstall_weighted_choice_stub(sim)
@@ -146,10 +161,16 @@ def run_path(h, cfg):
 
     def rate_function(G_, u, status, parameters):
         seen(status, 'rate_function(%s)' % (u,))
+        if cfg.get('no_parameters'):
+            if parameters != ():
+                stale.append(('rate_function got parameters %r instead of ()' % (parameters,), {}, {}))
+            parameters = params
         return m['rate'](G_, u, status, parameters)
 
     def transition_choice(G_, u, status, parameters):
         seen(status, 'transition_choice(%s)' % (u,))
+        if cfg.get('no_parameters'):
+            parameters = params
         new = m['choice'](G_, u, status, parameters)
         answers.append((u, status[u], new))
         current[u] = new          # the harness's own copy of "the current statuses", driven by the chooser only
@@ -157,6 +178,8 @@ def run_path(h, cfg):
 
     def get_influence_set(G_, u, status, parameters):
         seen(status, 'get_influence_set(%s)' % (u,))
+        if cfg.get('no_parameters'):
+            parameters = params
         res = m['influence'](G_, u, status, parameters)
         kind = cfg.get('infl')
         if kind == 'iterator':
@@ -168,7 +191,7 @@ def run_path(h, cfg):
         return res
     f = EoN.Gillespie_complex_contagion
     ret = h.call_must_succeed('no-exception', f, G, rate_function, transition_choice, get_influence_set, IC, tuple(m['statuses']),
-                              tmin=tmin, tmax=tmax, parameters=params, return_full_data=cfg['full'])
+                              tmin=tmin, tmax=tmax, parameters=user_params, return_full_data=cfg['full'])
     h.truncated = stub.truncated
     if ret is None:
         return None
